@@ -137,6 +137,7 @@ def evalCase (line : String) : String :=
         ",\"ok_hyp\":" ++ bstr (okSegsB segs) ++
         ",\"parsed_hyp\":" ++ bstr (KF.escFreeSegs segs && shSegs segs) ++
         ",\"float_overflow\":" ++ bstr (!((Rfc.fSegs segs).litFloats.all f64Exact && (Rfc.fSegs segs).litInts.all i64Exact)) ++
+        ",\"nonfinite_literal\":" ++ bstr (!((Rfc.fSegs segs).litFloats.all fun nd => f64Finite nd.1 nd.2)) ++
         ",\"regex_unsupported\":" ++ bstr (reUnsupported || specUns) ++ "}"
       "{\"impl\":" ++ impl ++ ",\"spec\":" ++ spec ++ ",\"rfc\":\"" ++ verdictStr v ++ "\",\"flags\":" ++ flags ++ "}"
 
